@@ -145,6 +145,9 @@ func (p *HTTPProxy) ServeHTTP(w http.ResponseWriter, r *http.Request) {
 		Host:   t.URL.Host,
 		Path:   r.URL.Path,
 	}
+	// the escaped form of the path as the client sent it. It is rewritten
+	// alongside the path so that the upstream sees the same percent-encoding.
+	rawPath := r.URL.EscapedPath()
 	if t.URL.RawQuery == "" || r.URL.RawQuery == "" {
 		targetURL.RawQuery = t.URL.RawQuery + r.URL.RawQuery
 	} else {
@@ -157,20 +160,30 @@ func (p *HTTPProxy) ServeHTTP(w http.ResponseWriter, r *http.Request) {
 	// TODO(fs): a defensive approach.
 	if t.StripPath != "" && strings.HasPrefix(r.URL.Path, t.StripPath) {
 		targetURL.Path = targetURL.Path[len(t.StripPath):]
+		rawPath = rawPath[escapedLen(rawPath, len(t.StripPath)):]
 		// ensure absolute path after stripping to maintain compliance with
 		// section 5.3 of RFC7230 (https://tools.ietf.org/html/rfc7230#section-5.3)
 		if !strings.HasPrefix(targetURL.Path, "/") {
 			targetURL.Path = "/" + targetURL.Path
+			rawPath = "/" + rawPath
 		}
 	}
 
 	if t.PrependPath != "" {
 		targetURL.Path = t.PrependPath + targetURL.Path
+		rawPath = (&url.URL{Path: t.PrependPath}).EscapedPath() + rawPath
 		// ensure absolute path after stripping to maintain compliance with
 		// section 5.3 of RFC7230 (https://tools.ietf.org/html/rfc7230#section-5.3)
 		if !strings.HasPrefix(targetURL.Path, "/") {
 			targetURL.Path = "/" + targetURL.Path
+			rawPath = "/" + rawPath
 		}
+	}
+
+	// keep the client's encoding of the path unless an encoded slash has
+	// become its first character
+	if strings.HasPrefix(rawPath, "/") {
+		targetURL.RawPath = rawPath
 	}
 
 	if err := addHeaders(r, p.Config, t.StripPath); err != nil {
@@ -269,6 +282,23 @@ func (p *HTTPProxy) ServeHTTP(w http.ResponseWriter, r *http.Request) {
 			UpstreamURL:     targetURL,
 		})
 	}
+}
+
+// escapedLen returns the length of the prefix of the escaped path s
+// which unescapes to n bytes.
+func escapedLen(s string, n int) int {
+	i := 0
+	for ; n > 0 && i < len(s); n-- {
+		if s[i] == '%' {
+			i += 3
+		} else {
+			i++
+		}
+	}
+	if i > len(s) {
+		i = len(s)
+	}
+	return i
 }
 
 func key(code int) string {
